@@ -667,6 +667,11 @@ def handleHist (inp impl : Json) : R OpResult := do
         holds := holds ++ [("C15.hist_stateless", ok)]
       | _ => pure ()
       holds := holds ++ [("C15.hist_frame", decide (implParked = prevParked))]
+    | "init" =>
+      -- `Initialize`: every referenced object exists and has a script, or an error; nothing is written
+      let r1 : Res := if w.active.all (fun r => r.obj.isSome && r.script.isSome) then .ok true else .err
+      recJ := [("res", resToJson r1)]
+      holds := holds ++ [("C15.hist_init_writes_nothing", decide (implObjs = prevObjs) && decide (implParked = prevParked))]
     | "fin" =>
       let b ← budgetOfJson e
       let annotatedBefore := (w.active.filter fun r => match r.obj with | some x => !noOrig x | none => false).length
